@@ -81,11 +81,87 @@ def _helpers(sk, but):
         params = cstmt.param_decls(f.header)
         if params is None:
             continue
+        # default arguments: written at the definition, or (members) at the declaration in the class header
+        dflt = cstmt.param_defaults(f.header) or [None] * len(params)
+        m = re.search(r"\b" + re.escape(short) + r"\s*\(((?:[^()]|\([^()]*\))*)\)\s*(?:const\s*)?;", sk.__dict__.get("_c19_header", ""))
+        if m and len(dflt) == len(params):
+            decl = cstmt.param_defaults("void " + short + "(" + m.group(1) + ")")
+            if decl is not None and len(decl) == len(params):
+                dflt = [a if a is not None else b for a, b in zip(dflt, decl)]
         try:
-            cache[f.name] = (short, params, cstmt.parse_body(_THIS.sub("", cstmt.expand_macros(_ctext(sk, f.body), sk.__dict__.get("_c19_macros", {})))))
+            cache[f.name] = (short, params, cstmt.parse_body(_THIS.sub("", cstmt.expand_macros(_ctext(sk, f.body), sk.__dict__.get("_c19_macros", {})))), dflt)
         except cstmt.CStmtError:
             pass
-    return {v[0]: (v[1], v[2]) for k, v in cache.items() if v and k != but}
+    return {v[0]: (v[1], v[2], v[3]) for k, v in cache.items() if v and k != but}
+
+
+_CAPTURE_OK = re.compile(r"(&|this|\*this|&[A-Za-z_]\w*)$")
+
+
+def _local_lambdas(body):
+    """`auto name = [&](T a, U *b) { .. };` -- a local helper: calls of it are replaced by its body like those of a function of the
+    file.  What the body names is the enclosing function's variable when the capture is by reference (`[&]`, `[&x]`, `[this]`) or
+    there is nothing to capture (`[]`); a lambda that works on by-value copies of locals, is `mutable`, or is bound more than once
+    stays a call nobody looks into.  -> (body without the definitions, {name: (parameters, parsed body)})"""
+    found = {}
+    count = {}
+    for st, _ in cstmt.walk(body):
+        if st[0] == "expr":
+            for nm, op, rhs, decl in cstmt.assignments(st[1]):
+                count[nm] = count.get(nm, 0) + 1
+
+    def lam(st):
+        if st[0] != "expr" or "=" not in st[1]:
+            return None
+        t = st[1]
+        i = t.index("=")
+        if i < 2 or not cstmt.IDENT.match(t[i - 1]) or "auto" not in t[:i - 1] or not all(x in ("const", "auto", "static") for x in t[:i - 1]) or t[i + 1:i + 2] != ["["]:
+            return None
+        name = t[i - 1]
+        try:
+            j = t.index("]", i + 1)
+            caps = cstmt._top_split(t[i + 2:j], (",",)) if j > i + 2 else []
+            if not all(_CAPTURE_OK.match("".join(c)) for c in caps) or t[j + 1] != "(":
+                return None
+            d, k = 0, j + 1
+            while True:
+                d += t[k] == "("
+                d -= t[k] == ")"
+                if d == 0:
+                    break
+                k += 1
+            params = cstmt.param_decls("void f(" + " ".join(t[j + 2:k]) + ")")
+            rest = t[k + 1:]
+            if rest[:1] == ["->"]:
+                rest = rest[rest.index("{"):]
+            if params is None or rest[:1] != ["{"] or rest[-1] != "}" or count.get(name) != 1:
+                return None
+            return name, (params, cstmt.parse_body(" ".join(rest)), cstmt.param_defaults("void f(" + " ".join(t[j + 2:k]) + ")"))
+        except (ValueError, IndexError, cstmt.CStmtError):
+            return None
+
+    def strip(st):
+        k = st[0]
+        if k == "block":
+            out = []
+            for s in st[1]:
+                r = lam(s)
+                if r is not None and r[0] not in found:
+                    found[r[0]] = r[1]
+                else:
+                    out.append(strip(s))
+            return ("block", out)
+        if k == "if":
+            return ("if", st[1], strip(st[2]), None if st[3] is None else strip(st[3]))
+        if k == "for":
+            return ("for", st[1], st[2], st[3], strip(st[4]))
+        if k in ("while", "dowhile"):
+            return (k, st[1], strip(st[2]))
+        if k == "try":
+            return ("try", strip(st[1]), [(d, strip(b)) for d, b in st[2]])
+        return st
+    out = strip(body)
+    return (out, found) if found else (body, {})
 
 
 def _named_constants(ctx, sk, rel):
@@ -117,9 +193,12 @@ def _func(ctx, rel, cfg, fname):
     if "_c19_macros" not in sk.__dict__:
         sk._c19_macros = cstmt.macro_defs(_ctext(sk, sk.clean))
         sk._c19_consts = _named_constants(ctx, sk, rel)
+        hdr = rel.rsplit("/src/", 1)[0] + "/include/naunet.h.j2"
+        sk._c19_header = re.sub(r"/\*.*?\*/|//[^\n]*", " ", ctx.tree.read(hdr), flags=re.S) if ctx.tree.exists(hdr) else ""
     text = _THIS.sub("", cstmt.expand_macros(_ctext(sk, fs[0].body), sk._c19_macros))
     try:
-        body = cstmt.inline_calls(cstmt.parse_body(text), _helpers(sk, fname))
+        body, lambdas = _local_lambdas(cstmt.parse_body(text))
+        body = cstmt.inline_calls(body, {**_helpers(sk, fname), **lambdas})
         if sk._c19_consts:
             shadow = cstmt.declared_locals(body) | set(cstmt.params_of(fs[0].header) or ())
             body = cstmt._subst_stmt(body, {k: v for k, v in sk._c19_consts.items() if k not in shadow})
@@ -128,6 +207,7 @@ def _func(ctx, rel, cfg, fname):
         return None
     fn = _Func(sk, fs[0], body)
     fn.text = text
+    fn.sk = sk
     return fn
 
 
@@ -153,6 +233,7 @@ def check(ctx):
     _r4(ctx)
     _r5(ctx)
     _r6(ctx)
+    _r7_budget(ctx)
 
 
 def _flat_text(ctx, sk, f, cfg, fname):
@@ -237,8 +318,17 @@ def _r1(ctx):
                     ctx.missing("R1", f"cvode/{mth}:{fname}", (CV, 0), "function not found")
                 continue
             n += 1
-            probs = cstmt.unchecked_flags(body, lambda c: c.startswith("CVode") and not c.startswith("CVodeCreate") and not c.startswith("CVodeFree"))
+            # a call that can read the status without naming it may be its test: a local closure (`auto failed = [=]..`) that was not
+            # looked into, or -- for a status kept in a member -- another function of the file
+            locs = cstmt.declared_locals(body)
+            mine = locs | set(cstmt.params_of(sk.func(fname)[0].header) or ())
+            filefns = {f.name.split("::")[-1] for f in sk.funcs if f.name != "?"} - SUBJECTS
+            maybe = []
+            probs = cstmt.unchecked_flags(body, lambda c: c.startswith("CVode") and not c.startswith("CVodeCreate") and not c.startswith("CVodeFree"),
+                                          opaque=lambda name, var: name in locs or (name in filefns and var not in mine), unknown=maybe)
             key = f"cvode/{mth}:{fname}"
+            for var, _, name in maybe:
+                ctx.unrec("R1", f"{key}:{var} read by {name}", (CV, 0), f"`{name}(..)` can read the status `{var}` without naming it and could not be looked into: cannot tell whether it tests the status")
             if not probs:
                 ncalls = sum(1 for s, c in cstmt.walk(body) if s[0] == "expr" and cstmt.assigned_call(s[1]) and cstmt.assigned_call(s[1])[1].startswith("CVode"))
                 ctx.ok("R1", key, (CV, 0), f"every status of the {ncalls} CVode* calls is tested before it is overwritten or the function returns")
@@ -463,9 +553,18 @@ def _r2_handle_error(ctx, label, F, FLAG):
         ctx.unrec("R2", key, (CV, 0), f"cannot follow what the function returns after the last level: {sorted(set(map(str, wrong.values())))}")
 
 
-def _loop_var(loop):
-    """(variable, expression text of its value in the last iteration) of `for (..; v < E; v++)` / `.. while (v <= E) { ..; v++; }`"""
+def _loop_var(loop, flag=None):
+    """(variable, expression text of its value at the head of the last iteration) of `for (..; v < E; v++)` / `.. while (v <= E) { ..; v++; }`.
+    A further conjunct of the condition that only says "the last status is not a failure" (`flag >= 0 && v < E`: the `break` on a
+    failed call, written into the loop condition) does not shorten a run in which every call succeeds."""
     cond = loop[2] if loop[0] == "for" else loop[1]
+    conj = cstmt._top_split(list(cond), ("&&",))
+    if flag and len(conj) > 1:
+        rest = [cj for cj in conj if not all(cstmt.truth(cj, {**CONSTS, flag: v}) is True for v in (0, 1, 2, 99))]
+        if len(rest) == 1:
+            cond = rest[0]
+            while len(cond) >= 2 and cond[0] == "(" and cond[-1] == ")" and cstmt.sole_call(["f"] + list(cond)):
+                cond = cond[1:-1]
     incs = cstmt.assignments(loop[3]) if loop[0] == "for" else []
     if loop[0] == "while":
         body = loop[2][1] if loop[2][0] == "block" else [loop[2]]
@@ -483,6 +582,53 @@ def _loop_var(loop):
             if lhs == [v] and v not in rhs:
                 bound = " ".join(rhs)
                 return v, (f"({bound}) - 1" if op in ("<", ">", "!=") else f"({bound})")
+    return None
+
+
+def _numerically_different(a: str, b: str):
+    """Second opinion for a `not the same value` of the canonical algebra (which is incomplete: two spellings of one function can have
+    different canonical forms): the two C expressions evaluated at random positive values of their symbols.  True -- they differ at
+    a point (positive evidence); False -- they agree at every point tried; None -- cannot be evaluated."""
+    import math
+    import random
+    try:
+        ea, eb = calg.parse(a), calg.parse(b)
+    except calg.CParseError:
+        return None
+    names = sorted(set(calg.idents(ea)) | set(calg.idents(eb)))
+    FN = {"pow": math.pow, "log10": math.log10, "log": math.log, "exp": math.exp, "sqrt": math.sqrt, "fabs": abs, "abs": abs, "fmin": min, "fmax": max, "min": min, "max": max}
+
+    def ev(e, env):
+        k = e[0]
+        if k == "num":
+            return e[1]
+        if k == "id":
+            return env[e[1]]
+        if k == "neg":
+            return -ev(e[1], env)
+        if k == "bin" and e[1] in ("+", "-", "*", "/"):
+            x, y = ev(e[2], env), ev(e[3], env)
+            return x + y if e[1] == "+" else x - y if e[1] == "-" else x * y if e[1] == "*" else x / y
+        if k == "call" and e[1] in FN:
+            return FN[e[1]](*[ev(x, env) for x in e[2]])
+        raise KeyError(k)
+    rnd = random.Random(19)
+    good = 0
+    for _ in range(60):
+        env = {n: rnd.uniform(0.05, 3.0) for n in names if n not in FN}
+        try:
+            x, y = ev(ea, env), ev(eb, env)
+        except (ValueError, ZeroDivisionError, OverflowError):
+            continue
+        except (KeyError, TypeError):
+            return None
+        if isinstance(x, complex) or isinstance(y, complex):
+            continue
+        good += 1
+        if abs(x - y) > 1e-9 * max(1.0, abs(x), abs(y)):
+            return True
+        if good >= 8:
+            return False
     return None
 
 
@@ -549,7 +695,7 @@ def _r3_ladder(ctx, label, F, FLAG, AB, DT, T0):
         if not r or r[0] != "stop":
             raise cstmt.Unknown("no sub-step loop around a CVode call after the re-initialisation")
         sub = r[1]
-        sv = _loop_var(sub)
+        sv = _loop_var(sub, FLAG)
         if not sv:
             raise cstmt.Unknown(f"cannot tell the last iteration of the sub-step loop `{cstmt.txt(sub[2] if sub[0] == 'for' else sub[1])}`")
         post.s[sv[0]] = post.subst(cstmt.tokenize(sv[1]))
@@ -658,6 +804,8 @@ def _r3_ladder(ctx, label, F, FLAG, AB, DT, T0):
         for lvl, pairs in per_level:
             pairs = [(kind, at_level(a, lvl), at_level(b, lvl)) if kind == "scalar" else (kind, a, b) for kind, a, b in pairs]
             vs = [cstmt.same_value(a, b) if kind == "scalar" else (None if cstmt.OPAQUE in a + b else a == b) for kind, a, b in pairs]
+            # "not the same" of the (incomplete) canonical algebra counts only when the two values differ at a point
+            vs = [(x if x is not False or kind != "scalar" else {True: False, False: True, None: None}[_numerically_different(a, b)]) for x, (kind, a, b) in zip(vs, pairs)]
             if not found or (any(x is False for x in vs) and not any(x is False for x in vals)) or (any(x is not True for x in vs) and all(x is True for x in vals)):
                 found = (f"level {lvl}: " + "; ".join(f"{a}  vs  {b}" for kind, a, b in pairs))[:320]
             vals += vs
@@ -698,6 +846,126 @@ def _r3_ladder(ctx, label, F, FLAG, AB, DT, T0):
         else:
             ctx.check(okr, "R3", f"{label}:re-initialisation", where, f"the integrator restarts at time 0 from cv_y_ (= {AB}): CVodeReInit(cv_mem_, 0, cv_y_)", found=f"CVodeReInit({', '.join(args)}) with time = {t_arg}")
         break
+
+
+def _flow_after(st, s, goal, exits):
+    """Where control can go after statement `s` (somewhere inside `st`), read off the statement tree: "reached" -- it can arrive at
+    `goal` (a later statement of an enclosing block, or the loop around `s`: its next iteration); "stops" -- every way on ends in
+    return / throw first; "falls" -- it leaves `st` at its end; None -- `s` is not inside `st`.  The `if` statements passed on the way
+    that leave the function in one arm only are collected in `exits` as (condition tokens, polarity under which control goes on)."""
+    k = st[0]
+    if st is s:
+        return "falls"
+    if k == "block":
+        r = None
+        for i, x in enumerate(st[1]):
+            if r is None:
+                r = _flow_after(x, s, goal, exits)
+                if r in ("reached", "stops"):
+                    return r
+                continue
+            # r == "falls": the statements that follow
+            if x is goal:
+                return "reached"
+            jumps = {y[0] for y, cs in cstmt.walk(x) if y[0] in ("break", "continue") and not any(g[0] in ("for", "while") for g in cs)}
+            if cstmt.always_exits(x):
+                return "falls" if jumps else "stops"
+            if x[0] == "if" and not jumps:
+                th, el = cstmt.always_exits(x[2]), x[3] is not None and cstmt.always_exits(x[3])
+                if th or el:
+                    exits.append((tuple(x[1]), not th))
+        return r
+    if k == "if":
+        for arm in (st[2], st[3]):
+            if arm is not None:
+                r = _flow_after(arm, s, goal, exits)
+                if r is not None:
+                    return r
+        return None
+    if k in ("for", "while", "dowhile"):
+        r = _flow_after(st[4] if k == "for" else st[2], s, goal, exits)
+        if r == "falls" and st is goal:
+            return "reached"
+        return r
+    if k == "try":
+        for arm in [st[1]] + [b for d, b in st[2]]:
+            r = _flow_after(arm, s, goal, exits)
+            if r is not None:
+                return r
+    return None
+
+
+def _r3_time_reached(ctx, label, fn, FLAG, T0):
+    """Every CVode call HandleError makes (its own or a helper's, inlined) advances the integrator: the recoverable branch of the
+    ladder subtracts `t0` from the time left and continues from the state reached, so the time the LAST call reached must be in
+    HandleError's own `t0` whenever a level can start afterwards.  (The call inside the sub-step loop is judged with the ladder.)"""
+    F = fn.fn
+    where = (CV, 0)
+    ladder = [s for s, c in F.seq if s[0] in ("for", "while", "dowhile") and any(_is_call(x, "CVodeReInit") for x, _ in cstmt.walk(s))]
+    if not ladder:
+        return
+    ladder = ladder[0]
+    lpos = F.pos[id(ladder)]
+    # a helper of this file that calls CVode and could not be looked into
+    steppers = {f.name.split("::")[-1] for f in fn.sk.funcs if f.name != "?" and f.name.split("::")[-1] not in SUBJECTS and re.search(r"\bCVode\s*\(", fn.sk.plain(f.body))}
+    for s, c in F.seq:
+        for pt in ([s[1]] if s[0] in ("expr", "return", "if", "while", "dowhile") else [s[1], s[2], s[3]] if s[0] == "for" else []):
+            for j, t in enumerate(pt):
+                if t in steppers and pt[j + 1:j + 2] == ["("] and not (j and pt[j - 1] in (".", "->", "::")):
+                    ctx.unrec("R3", f"{label}:HandleError:{t} advances the integrator", where, f"`{t}(..)` calls CVode and could not be looked into: where the time it reaches goes is not known")
+                    return
+    n = 0
+    for s, c in F.seq:
+        cv = _is_call(s, "CVode")
+        if not cv:
+            continue
+        inner = [g[3] for g in c if g[0] in ("for", "while")]
+        if ladder in inner and inner[-1] is not ladder and F.pos[id(s)] > min([F.pos[id(x)] for x, _ in cstmt.walk(ladder) if _is_call(x, "CVodeReInit")]):
+            continue                    # the sub-step loop of the ladder: _r3_ladder
+        n += 1
+        args = [cstmt.norm(a) for a in cv[2]]
+        key = f"{label}:HandleError:CVode call outside the sub-steps #{n}"
+        tret = args[3][1:] if len(args) == 5 and args[3].startswith("&") and cstmt.IDENT.match(args[3][1:]) else None
+        if tret is None:
+            ctx.unrec("R3", key, where, f"cannot see where CVode({', '.join(args)}) reports the time reached")
+            continue
+        if tret == T0:
+            ctx.ok("R3", key, where, f"the time reached goes into {T0}")
+            continue
+        exits = []
+        r = _flow_after(F.body, s, ladder, exits)
+        sp = F.pos[id(s)]
+        end = lpos if sp < lpos else max(F.pos[id(x)] for x, _ in cstmt.walk(ladder))
+        handed = [i for i, op, rhs, decl in F.defs.get(T0, ()) if sp < i <= end]
+        if r == "stops":
+            ctx.ok("R3", key, where, "no level of the ladder starts after this call")
+            continue
+        if handed:
+            same = all(op == "=" and rhs is not None and _bare(rhs) == tret for i, op, rhs, decl in F.defs.get(T0, ()) if sp < i <= end)
+            if same and sp < lpos:
+                ctx.ok("R3", key, where, f"the time reached is handed to {T0} before the ladder")
+            else:
+                ctx.unrec("R3", key, where, f"CVode reports into `{tret}` and {T0} is written afterwards: cannot follow which time the next level subtracts")
+            continue
+        res = cv[0]
+        open_for = []
+        undecided = False
+        for v in REC:
+            ts = [cstmt.truth(cond, {**CONSTS, res: v}) for cond, goes_on in exits]
+            if any(t is None for t in ts):
+                undecided = True
+            elif all(t == goes_on for t, (cond, goes_on) in zip(ts, exits)):
+                open_for.append(v)
+        if r == "reached" and open_for and not F.written_between({res}, sp, lpos if sp < lpos else sp):
+            ctx.bad("R3", key, where,
+                    f"CVode advances the integrator and reports the time reached into `{tret}`" + (f" (a by-value copy of {T0})" if "__byval" in tret else "") + f", not into {T0}; when it fails again "
+                    f"(e.g. {res} = {open_for[0]}) the ladder starts from the state reached and subtracts the stale {T0} from the time left: the stretch integrated by this call is "
+                    "integrated twice and Solve reports success",
+                    expected=f"CVode(cv_mem_, tout, cv_y_, &{T0}, CV_NORMAL): progress reported into HandleError's own {T0}", found=f"{res} = CVode({', '.join(args)})")
+        elif r == "reached" and not undecided and not open_for:
+            ctx.ok("R3", key, where, "every recoverable result of this call leaves the function before a level starts")
+        else:
+            ctx.unrec("R3", key, where, f"CVode reports into `{tret}`, not into {T0}: cannot decide whether a level of the ladder can start afterwards")
 
 
 def _r2_solve(ctx, label, mth):
@@ -751,6 +1019,7 @@ def _r2_r3(ctx):
             continue
         FLAG, AB, DT, T0 = fn.params
         _r2_handle_error(ctx, label, fn.fn, FLAG)
+        _r3_time_reached(ctx, label, fn, FLAG, T0)
         _r3_ladder(ctx, label, fn.fn, FLAG, AB, DT, T0)
         _r2_solve(ctx, label, mth)
 
@@ -893,6 +1162,91 @@ def _r4(ctx):
         decl = [d[1][:d[1].index(OBS) + 1] + [t for t in SF.expand(d[1][d[1].index(OBS) + 1:], SF.pos[id(d)]) if t not in ("(", ")", "{", "}")] for d in decl]
         obs = any(cstmt.norm(d) in (f"Observer{OBS}mxsteps_", f"Observer{OBS}=Observermxsteps_", f"auto{OBS}=Observermxsteps_") for d in decl)
         ctx.check(obs, "R4", "observer gets the step budget", (OD, 0), "Observer observer(mxsteps_): a fresh observer per call, built from the configured budget", found=str([cstmt.txt(d) for d in decl]))
+
+
+def _r7_budget(ctx):
+    """The budget the odeint observer enforces is the one the caller configured LAST: the member Solve builds the observer from is
+    assigned from the parameter of Init / Reset on every path on which they report success (a success exit taken before the
+    assignment leaves the budget of an earlier call in force: Solve then returns success although the budget asked for was exceeded)."""
+    sv = _func(ctx, OD, {}, "Naunet::Solve")
+    if sv is None:
+        return
+    SF = sv.fn
+    M = None
+    for x, c in SF.seq:
+        if x[0] == "expr" and "Observer" in x[1]:
+            i = x[1].index("Observer")
+            if i + 1 < len(x[1]) and cstmt.IDENT.match(x[1][i + 1]):
+                rest = [t for t in SF.expand(x[1][i + 2:], SF.pos[id(x)]) if t not in ("(", ")", "{", "}", "=", "Observer")]
+                if len(rest) == 1 and cstmt.IDENT.match(rest[0]):
+                    M = rest[0]
+    if M is None or M in (sv.params or ()) or M in cstmt.declared_locals(sv.body):
+        ctx.unrec("R7", "odeint:Solve:observer budget", (OD, 0), "cannot see which member of Naunet the observer's budget is taken from")
+        return
+    n = 0
+    for fname in ("Naunet::Init", "Naunet::Reset"):
+        fn = _func(ctx, OD, {}, fname)
+        if fn is None:
+            ctx.missing("R7", f"odeint:{fname}", (OD, 0), "function not found")
+            continue
+        n += 1
+        F = fn.fn
+        short = fname.split("::")[1]
+        key = f"odeint:{short}:stores the step budget before reporting success"
+        params = set(fn.params or ())
+        stores = [(i, op, rhs) for i, op, rhs, decl in F.defs.get(M, ())]
+        src = {_bare(F.expand(rhs, i)) if op == "=" and rhs is not None else None for i, op, rhs in stores}
+        if not stores:
+            others = {f.name.split("::")[-1] for f in fn.sk.funcs if f.name not in ("?", fname)}
+            delegated = any(t in others and pt[j + 1:j + 2] == ["("] for st, _ in F.seq for pt in st[1:] if isinstance(pt, list) and (not pt or isinstance(pt[0], str)) for j, t in enumerate(pt))
+            if delegated:
+                ctx.unrec("R7", key, (OD, 0), f"`{M}` is not assigned in {short} itself and a function that could not be looked into is called")
+            else:
+                ctx.bad("R7", key, (OD, 0), f"{short} never stores the step budget it is given in `{M}` (the member Solve builds the observer from): the budget of an earlier call stays in force",
+                        expected=f"{M} = <the mxsteps parameter>", found="no assignment")
+            continue
+        if len(src) != 1 or None in src or not (src <= params):
+            ctx.unrec("R7", key, (OD, 0), f"`{M}` is assigned something other than a parameter of {short}: {sorted(map(str, src))}")
+            continue
+        P = next(iter(src))
+
+        def same_already(conds):
+            """a guard that says the member already equals the parameter"""
+            for g in conds:
+                if g[0] == "if" and g[2]:
+                    for cj in cstmt._top_split(list(F.expand(g[1], F.pos.get(id(g[3]), 0))), ("&&",)):
+                        if _bare(cj) in (f"{M}=={P}", f"{P}=={M}"):
+                            return True
+            return False
+        early, unclear = [], []
+        for st, c in F.seq:
+            if st[0] != "return":
+                continue
+            val = cstmt.value(st[1], CONSTS)
+            if val == 1:
+                continue
+            rp = F.pos[id(st)]
+            mine = {(g[1], g[2], id(g[3])) for g in c if g[0] == "if"}
+            before = [i for i, op, rhs in stores if i < rp]
+            dom = [i for i in before if not any(g[0] in ("for", "while") for g in F.seq[i][1])
+                   and {(g[1], g[2], id(g[3])) for g in F.seq[i][1] if g[0] == "if"} <= mine]
+            if dom or same_already(c):
+                continue
+            if not before and val == 0 and not any(g[0] in ("for", "while", "try", "catch") for g in c):
+                early.append(st)
+            else:
+                unclear.append(st)
+        if early:
+            g = [("" if x[2] else "!") + "(" + cstmt.norm(x[1]) + ")" for x in F.seq[F.pos[id(early[0])]][1] if x[0] == "if"]
+            ctx.bad("R7", key, (OD, 0),
+                    f"{short} returns NAUNET_SUCCESS before `{M} = {P}` is executed (under {g}): the call is reported as done while the observer of the next Solve is still built from the budget of an "
+                    "earlier Init/Reset -- exceeding the budget asked for is not reported as failure",
+                    expected=f"{M} = {P} on every path that returns NAUNET_SUCCESS", found=f"return {cstmt.txt(early[0][1])} under {g}, before the assignment")
+        elif unclear:
+            ctx.unrec("R7", key, (OD, 0), f"cannot decide whether `{M} = {P}` has been executed when {short} returns `{cstmt.txt(unclear[0][1])}`")
+        else:
+            ctx.ok("R7", key, (OD, 0), f"`{M} = {P}` precedes every exit that reports success")
+    ctx.floor("R7", "configuration entry points", n, 2)
 
 
 def _r5(ctx):
